@@ -52,6 +52,33 @@ REAL_GROUP = ("pyrepseq/stats.py", "FormulasReal.lean", [
                                                       "drop_kwargs": True}),
 ])
 
+# pyrepseq/entropy.py: the entropies as functions of the coincidence statistics they call (`opaque`: the value of a call of that
+# function is a parameter of the generated definition, in this order); `raise_as_none`: a reachable `raise` is the result `none`;
+# one definition per static shape of `features` / `by` and per `base` given or None
+_ENT_OPAQUE = ["pc", "pc_joint", "pc_conditional"]
+_STD_OPAQUE = ["pc", "pc_joint", "stdpc", "stdpc_joint"]
+
+
+def _ent(name, static, suffix, opaque, with_base):
+    st = dict(static)
+    if not with_base:
+        st["base"] = None
+    return (name, {"base": "rat"} if with_base else {}, {"static": st, "suffix": suffix + ("" if with_base else "_nat"), "drop_kwargs": True,
+                                                           "opaque": opaque, "raise_as_none": True, "drop": ["df"]})
+
+
+ENTROPY_GROUP = ("pyrepseq/entropy.py", "FormulasEntropy.lean", [
+    _ent("renyi2_entropy", st, sfx, _ENT_OPAQUE, wb)
+    for st, sfx in (({"features": "f", "by": None}, "_single"), ({"features": ["f", "g"], "by": None}, "_joint"),
+                    ({"features": "f", "by": "k"}, "_conditional"))
+    for wb in (True, False)] + [
+    _ent("stdrenyi2_entropy", st, sfx, _STD_OPAQUE, wb)
+    for st, sfx in (({"features": "f"}, "_single"), ({"features": ["f", "g"]}, "_joint"))
+    for wb in (True, False)])
+
+# the standard deviation estimator: `varpc_n` inlined, under the real square root
+STD_GROUP = ("pyrepseq/stats.py", "FormulasStd.lean", [("stdpc_n", {"n": "vec"}, {})])
+
 IDENTITY_CALLS = {"np.asarray", "np.array", "ensure_numpy", "list", "pd.Series"}
 
 
@@ -84,12 +111,13 @@ class Fn:
         self.static = dict(self.opts.get("static", {}))
         self.externals = []              # (name, type) of locals turned into parameters
         self.has_nan = any(isinstance(n, ast.Return) and n.value is not None and dotted(n.value) in ("np.nan", "numpy.nan", "math.nan")
-                           for n in ast.walk(fdef))
+                           for n in ast.walk(fdef)) or bool(self.opts.get("raise_as_none"))
         self.ret = None
         self.vecs = {}                   # local names bound to element-wise expressions (substituted where used)
         self.module_defs = self.opts.get("module_defs") or {}
         self.depth = self.opts.get("depth", 0)
         self.tmp = 0
+        self.opaque_seen = {}
 
     # ---- expressions: return (lean, type); vec values are ("vec", base, body) with body a term in the bound variable x
     def is_identity(self, node, var=None):
@@ -145,6 +173,9 @@ class Fn:
         if isinstance(e, ast.Compare):
             if len(e.ops) != 1:
                 raise Untranslatable("chained comparison")
+            if isinstance(e.ops[0], (ast.Is, ast.IsNot)) and isinstance(e.comparators[0], ast.Constant) and e.comparators[0].value is None \
+                    and isinstance(e.left, ast.Name) and self.env.get(e.left.id) in ("rat", "nat"):
+                return ("False" if isinstance(e.ops[0], ast.Is) else "True"), "prop"      # a number is not None
             a, ta = self.expr(e.left)
             b, tb = self.expr(e.comparators[0])
             op = {ast.Eq: "=", ast.NotEq: "≠", ast.Lt: "<", ast.LtE: "≤", ast.Gt: ">", ast.GtE: "≥"}.get(type(e.ops[0]))
@@ -216,6 +247,12 @@ class Fn:
 
     def call(self, e):
         name = dotted(e.func)
+        if name in self.opts.get("opaque", ()):
+            # the value of this call is a parameter of the generated definition (one per callee; two calls of one callee must be the same call)
+            text = ast.unparse(e)
+            if self.opaque_seen.setdefault(name, text) != text:
+                raise Untranslatable(f"two different calls of {name}")
+            return name + "_val", "rat"
         if e.keywords:
             raise Untranslatable("keyword arguments")
         args = e.args
@@ -229,9 +266,10 @@ class Fn:
             v, t = self.expr(e.func.value)
             if t == "vec":
                 return f"({self.vec_term(v)}).sum", "rat"
-        if self.real and name in ("np.log", "numpy.log", "np.floor", "numpy.floor") and len(args) == 1:
+        if self.real and name in ("np.log", "numpy.log", "np.floor", "numpy.floor", "np.sqrt", "numpy.sqrt", "math.sqrt") and len(args) == 1:
             v, t = self.expr(args[0])
-            wrap = (lambda b: f"(Real.log {b})") if name.endswith("log") else (lambda b: f"((⌊{b}⌋ : ℤ) : Rat)")
+            wrap = (lambda b: f"(Real.log {b})") if name.endswith("log") else (lambda b: f"(Real.sqrt {b})") if name.endswith("sqrt") \
+                else (lambda b: f"((⌊{b}⌋ : ℤ) : Rat)")
             if t == "vec":
                 return ("vec", v[1], wrap(v[2])), "vec"
             return wrap(self.as_rat(v, t)), "rat"
@@ -453,17 +491,27 @@ class Fn:
             other = self.block(list(s.orelse) + rest, ind)
             self.env, self.vecs = saved
             return f"{pad}if {c} then\n{body}\n{pad}else\n" + other
+        if isinstance(s, ast.Pass):
+            return self.block(rest, ind)
+        if isinstance(s, ast.AugAssign) and isinstance(s.target, ast.Name):
+            asg = ast.Assign(targets=[ast.Name(id=s.target.id, ctx=ast.Store())],
+                             value=ast.BinOp(left=ast.Name(id=s.target.id, ctx=ast.Load()), op=s.op, right=s.value))
+            ast.fix_missing_locations(asg)
+            return self.block([asg] + rest, ind)
         if isinstance(s, ast.Raise):
+            if self.opts.get("raise_as_none"):
+                return pad + "none"
             raise Untranslatable("a reachable raise")
         raise Untranslatable(f"statement {type(s).__name__}")
 
     def static_value(self, t):
         """truth value of a condition that only involves parameters fixed at translation time (None: not static)"""
-        names = {n.id for n in ast.walk(t) if isinstance(n, ast.Name)}
+        names = {n.id for n in ast.walk(t) if isinstance(n, ast.Name)} - {"type", "list", "tuple", "str", "isinstance", "len"}
         if not names or not names <= set(self.static):
             return None
         try:
-            return bool(eval(compile(ast.Expression(t), "<static>", "eval"), {"__builtins__": {}}, dict(self.static)))
+            return bool(eval(compile(ast.Expression(t), "<static>", "eval"), {"__builtins__": {}, "type": type, "list": list, "tuple": tuple, "str": str,
+                                                                              "isinstance": isinstance, "len": len}, dict(self.static)))
         except Exception as e:  # noqa
             raise Untranslatable(f"static condition cannot be evaluated: {e!r}")
 
@@ -490,6 +538,8 @@ class Fn:
         ty = lambda t: 'List Rat' if t == 'vec' else ('List β' if t == 'coll' else 'Rat')  # noqa: E731
         for n_, t_ in self.externals:
             params.append(f"({n_} : {ty(t_)})")
+        for n_ in self.opts.get("opaque", ()):
+            params.append(f"({n_}_val : Rat)")
         for a in self.f.args.args:
             if a.arg in self.static or a.arg in self.opts.get("drop", []):
                 continue
@@ -543,16 +593,25 @@ def gen_group(group):
     return write_if_changed(os.path.join(OUT, outname), "\n".join(out))
 
 
-def gen_real():
-    path, outname, fns = REAL_GROUP
+def gen_real(group=None):
+    path, outname, fns = group or REAL_GROUP
     tree = ast.parse(source_of(path))
     defs = {n.name: n for n in tree.body if isinstance(n, ast.FunctionDef)}
-    out = [f"/- GENERATED by tools/gen_formulas.py from {path} — do not edit.", "",
-           "   Functions over the reals (logarithm, real power, floor), statement by statement; NumPy conversions are the identity,",
-           "   the uniform draws of `np.random.rand` are the explicit parameter `r`, `c[c >= cmin]` is `List.filter`; one definition per",
-           "   value of a `method` string (conditions on it are decided at translation time). -/",
+    out = [f"/- GENERATED by tools/gen_formulas.py from {path} — do not edit.", ""]
+    if group is None or group is STD_GROUP:
+        out += ["   Functions over the reals (logarithm, real power, floor), statement by statement; NumPy conversions are the identity,",
+                "   the uniform draws of `np.random.rand` are the explicit parameter `r`, `c[c >= cmin]` is `List.filter`; one definition per",
+                "   value of a `method` string (conditions on it are decided at translation time). -/"]
+    else:
+        out += ["   The entropies as functions of the coincidence statistics they call, statement by statement over the reals: the value of a",
+                "   call of `pc`, `pc_joint`, ... is the parameter `<callee>_val`; a reachable `raise` is the result `none`; one definition per",
+                "   static shape of `features` / `by` (conditions on them are decided at translation time) and per `base` given (a real",
+                "   number) or None (suffix `_nat`). -/"]
+    out += [
            "import Mathlib.Analysis.SpecialFunctions.Pow.Real", "import Mathlib.Analysis.SpecialFunctions.Log.Basic",
            "namespace Prs.Generated", "noncomputable section", "open Classical", ""]
+    if group is ENTROPY_GROUP:
+        out.insert(-1, "set_option linter.unusedVariables false")
     for name, ptypes, opts in fns:
         if name not in defs:
             raise Untranslatable(f"{path}: function {name} not found")
@@ -565,8 +624,16 @@ def gen_real():
     return write_if_changed(os.path.join(OUT, outname), "\n".join(out))
 
 
+def gen_entropy():
+    return gen_real(ENTROPY_GROUP)
+
+
+def gen_std():
+    return gen_real(STD_GROUP)
+
+
 def main():
-    return [gen_group(g) for g in GROUPS] + [gen_real()]
+    return [gen_group(g) for g in GROUPS] + [gen_real(), gen_entropy(), gen_std()]
 
 
 if __name__ == "__main__":
